@@ -50,8 +50,9 @@ HW_INIT = {'a': 2, 'b': 1, 'c': 2}
 CFG_VAL = {'a': 1, 'b': 2, 'c': 1}
 T0 = 1000000.0
 HANDLER_KINDS = ('R', 'CR', 'W', 'CW')
-MODES = {'R': ['ok', 'secop', 'plain'], 'CR': ['ok', 'secop', 'plain', 'ret', 'part'], 'W': ['ok', 'none', 'secop', 'plain'],
-         'CW': ['ok', 'secop', 'plain', 'ret'], 'PR': ['ok', 'secop', 'done'], 'PW': ['ok', 'none', 'secop', 'done']}
+MODES = {'R': ['ok', 'secop', 'comm', 'plain'], 'CR': ['ok', 'secop', 'comm', 'plain', 'ret', 'part'],
+         'W': ['ok', 'none', 'secop', 'comm', 'plain'], 'CW': ['ok', 'secop', 'comm', 'plain', 'ret'],
+         'PR': ['ok', 'secop', 'comm', 'done'], 'PW': ['ok', 'none', 'secop', 'done']}
 
 
 def _prefix(d):
@@ -75,7 +76,8 @@ def _elabel(exc):
         return 'int'                                   # what the interface makes of it
     if name == 'WrongTypeError':
         return 'typeNone' if 'None' in text else 'type'
-    return {'HardwareError': 'hw', 'InternalError': 'int', 'ProgrammingError': 'prog', 'RangeError': 'range'}.get(name, name)
+    return {'HardwareError': 'hw', 'InternalError': 'int', 'ProgrammingError': 'prog', 'RangeError': 'range',
+            'CommunicationFailedError': 'comm'}.get(name, name)
 
 
 def _wlabel(name, text):
@@ -84,14 +86,14 @@ def _wlabel(name, text):
         return 'typeNone' if 'None' in text else 'type'
     if name == 'InternalError':
         return 'prog' if 'must not return' in text else 'int'
-    return {'HardwareError': 'hw', 'RangeError': 'range'}.get(name, name)
+    return {'HardwareError': 'hw', 'RangeError': 'range', 'CommunicationFailed': 'comm'}.get(name, name)
 
 
 # ------------------------------------------------------------------ gamma: layout -> real classes
 
 def _mkfunc(d):
     """the hardware function of declaration d (instance state: _hw, _mode, _calls)"""
-    from frappy.errors import HardwareError
+    from frappy.errors import CommunicationFailedError, HardwareError
     from frappy.modulebase import Done
     kind, keys, fn = d['kind'], list(d['keys']), d['fn']
 
@@ -99,6 +101,8 @@ def _mkfunc(d):
         md = self._mode[fn]
         if md == 'secop':
             raise HardwareError('hw')
+        if md == 'comm':
+            raise CommunicationFailedError('no reply')
         if md == 'plain':
             raise ZeroDivisionError('boom')
         return md
@@ -289,6 +293,7 @@ class World:
     def close(self):
         for m in self.mods.values():
             try:
+                m.stopPollThread()
                 m.polledModules.clear()
                 if isinstance(m.triggerPoll, _Trigger):
                     m.triggerPoll.go.release()
@@ -300,7 +305,7 @@ class World:
     def define(self, lay):
         from ..dispatch_common import handle
         verdict, base, final = build_classes(lay)
-        obs = {'verdict': verdict, 'polls': {}, 'res': {'ok': True, 'v': 0, 'e': 'none'}, 'mods': {}}
+        obs = {'verdict': verdict, 'polls': {}, 'hkeys': {}, 'res': {'ok': True, 'v': 0, 'e': 'none'}, 'mods': {}}
         if verdict != 'ok':
             return obs
         self.lay = lay
@@ -311,7 +316,7 @@ class World:
             cls = base if name == 'p' else final
             m = cls(name, LoggerStub(name), dict({'description': ''}, **json.loads(json.dumps(cfg))), self.srv)
             m._hw = dict(HW_INIT)
-            m._mode = {fn: 'ok' for fn in fns}
+            m._mode = dict({fn: 'ok' for fn in fns}, **{fn: md for fn, md in lay['im']})
             m._calls = []
             self.srv.secnode.add_module(m, name)
             self.mods[name] = m
@@ -319,6 +324,12 @@ class World:
         handle(self.srv.dispatcher, self.conn, ('activate', None, None))
         del self.conn.msgs[:]
         obs['polls'] = {name: {k: bool(getattr(m, 'read_' + k).poll) for k in PARAMS} for name, m in self.mods.items()}
+        # the handler objects as seen on the classes (Handler.__get__ without instance)
+        for cls, decls in ((base, lay['base']), (final, lay['base'] + lay['sub'])):
+            for d in decls:
+                if d['kind'] in HANDLER_KINDS:
+                    h = getattr(cls, f'{_prefix(d)}_{d["fn"]}')
+                    obs['hkeys'][d['fn']] = sorted(h.keys) if obs['hkeys'].get(d['fn'], sorted(h.keys)) == sorted(h.keys) else ['?']
         self.prev = {name: self._core(name) for name in MODS}
         return obs
 
@@ -485,6 +496,8 @@ def _compare(st, obs, w):
             return ['verdict']
         if exp['verdict'] == 'ok' and exp['polls'] != obs['polls']:
             diff.append('polls')
+        if exp['verdict'] == 'ok' and {fn: sorted(ks) for fn, ks in dict(exp['hkeys'] or {}).items()} != obs['hkeys']:
+            diff.append('hkeys')
         return diff
     emods = exp['mods'] if isinstance(exp['mods'], dict) else {}
     for name, e in emods.items():
@@ -560,7 +573,11 @@ def _rand_layout(rnd, cls, careful):
         sub = []
     # a plain method and a handler function must not share the name of the call log
     cfg = [k for k in PARAMS if rnd.random() < 0.3]
-    return {'name': cls, 'cls': cls, 'base': base, 'sub': sub, 'hassub': hassub, 'cfg': cfg, 'fix': ''}
+    im = []
+    for d in base + sub:
+        if rnd.random() < 0.12 and not any(fn == d['fn'] for fn, _ in im):
+            im.append([d['fn'], rnd.choice(MODES[d['kind']][1:])])
+    return {'name': cls, 'cls': cls, 'base': base, 'sub': sub, 'hassub': hassub, 'cfg': cfg, 'im': im, 'fix': ''}
 
 
 def _rand_steps(rnd, lay, n):
@@ -621,8 +638,15 @@ def _run_random(steps, rnd):
             if obs['verdict'] == 'ok':
                 lay = st['lay']
         if lay is not None:
+            # before the poll threads are started a driver (or an early client) may already write and read
+            for j in range(rnd.choice([0, 0, 1, 2])):
+                st = {'act': rnd.choice(['change', 'change', 'read']), 'mod': rnd.choice(['m', 'm', 'p']),
+                      'key': rnd.choice(PARAMS), 'val': rnd.choice([0, 1, 3])}
+                trace.append(_event(st, w.step(st, direct=_direct(j, st))))
             trace.append(_event({'act': 'start'}, w.start()))
-            seen = {}
+            seen = {('m', fn): md for fn, md in lay['im']}
+            seen.update({('n', fn): md for fn, md in lay['im']})
+            seen.update({('p', fn): md for fn, md in lay['im']})
             for j, st in enumerate(_rand_steps(rnd, lay, rnd.randint(5, 14))):
                 if st['act'] == 'setmode':
                     if seen.get((st['mod'], st['fn']), 'ok') == st['mode']:
@@ -718,11 +742,11 @@ def _judge(chk, traces, origins):
     chk.notes['binding_selftest'] = tested
 
 
-GEN_QUICK = ['common', 'mixed', 'plain', 'cfg', 'sub', 'sub2', 'defs']
+GEN_QUICK = ['common', 'mixed', 'plain', 'cfg', 'im', 'sub', 'sub2', 'defs']
 GEN_THOROUGH = GEN_QUICK + ['deep_common', 'deep_mixed', 'deep_sub', 'deep_cfg']
-MC = {'quick': ['MC_RWHandler_quick.cfg', 'MC_RWHandler_quick_sub.cfg'],
+MC = {'quick': ['MC_RWHandler_quick.cfg', 'MC_RWHandler_quick_sub.cfg', 'MC_RWHandler_quick_im.cfg'],
       'thorough': ['MC_RWHandler_thorough_common.cfg', 'MC_RWHandler_thorough_rb.cfg', 'MC_RWHandler_thorough_cfg.cfg',
-                   'MC_RWHandler_thorough_sub.cfg', 'MC_RWHandler_thorough_plain.cfg']}
+                   'MC_RWHandler_thorough_sub.cfg', 'MC_RWHandler_thorough_plain.cfg', 'MC_RWHandler_thorough_im.cfg']}
 MUST_FAIL = [('MC_RWHandler_asimpl_mask.cfg', {'FreshRead', 'GroupFresh', 'ReadErrorReported'}),
              ('MC_RWHandler_asimpl_none.cfg', {'CleanWrite'}),
              ('MC_RWHandler_asimpl_key.cfg', {'AcceptedSound'}),
